@@ -26,14 +26,14 @@ OP_PROP = {"Delete": "C10", "Pop": "C10", "Extend": "C11", "ExtendTypes": "C11",
 PROP_OPS = {"C10": ["Delete", "Pop"], "C11": ["Extend", "ExtendTypes", "ExtendShifted"], "C12": ["Replicate"],
             "C09": sorted(OP_PROP)}
 
-ALLF = '{"F1p", "F2p", "F3p", "F4p", "F3r", "F3e", "F3q", "F3a", "F2b", "F4b", "F3x", "F2y", "E"}'
+ALLF = '{"F1p", "F2p", "F3p", "F4p", "F3r", "F3e", "F3q", "F3a", "F2b", "F4b", "F3x", "F2y", "F2z", "E"}'
 TIERS = {
     "quick": {
         "C09": dict(InitFrags='{"F2p", "F4p", "F4b", "F3x", "E"}', ExtFrags='{"F1p", "F3p", "F2b"}',
                     InitCells='{"none", "tri"}', MaxAtoms=8, MaxDepth=2, MaxMap=1, MaxDel=2, Dims="DimsQuick"),
         "C10": dict(InitFrags='{"F2p", "F4p", "F3r", "F3a", "F4b", "F3x"}', ExtFrags='{"F1p", "F3p", "F2y"}',
                     InitCells='{"none"}', MaxAtoms=8, MaxDepth=2, MaxMap=1, MaxDel=3, Dims="DimsQuick"),
-        "C11": dict(InitFrags='{"F2p", "F4p", "F3r", "F3a", "F4b", "F3x", "E"}', ExtFrags='{"F1p", "F3p", "F3q", "F2b", "F2y"}',
+        "C11": dict(InitFrags='{"F2p", "F4p", "F3r", "F3a", "F4b", "F3x", "E"}', ExtFrags='{"F1p", "F3p", "F3q", "F2b", "F2y", "F2z"}',
                     InitCells='{"none"}', MaxAtoms=8, MaxDepth=2, MaxMap=1, MaxDel=2, Dims="DimsQuick"),
         "C12": dict(InitFrags='{"F2p", "F4p", "F3r", "F3a", "F4b", "F3x"}', ExtFrags='{"F1p", "F2y"}',
                     InitCells='{"ortho", "tri", "trineg"}', MaxAtoms=12, MaxDepth=2, MaxMap=1, MaxDel=1, Dims="DimsMid"),
@@ -45,7 +45,7 @@ TIERS = {
                     MaxAtoms=10, MaxDepth=2, MaxMap=1, MaxDel=2, Dims="DimsMid"),
         "C10": dict(InitFrags=ALLF, ExtFrags='{"F1p", "F3p", "F3q", "F4b", "F2y"}', InitCells='{"none", "tri"}',
                     MaxAtoms=9, MaxDepth=2, MaxMap=1, MaxDel=4, Dims="DimsQuick"),
-        "C11": dict(InitFrags='{"F2p", "F4p", "F3r", "F3e", "F4b", "F3x", "E"}', ExtFrags='{"F1p", "F3p", "F3e", "F3q", "F2b", "F2y"}',
+        "C11": dict(InitFrags='{"F2p", "F4p", "F3r", "F3e", "F4b", "F3x", "E"}', ExtFrags='{"F1p", "F3p", "F3e", "F3q", "F2b", "F2y", "F2z"}',
                     InitCells='{"none"}', MaxAtoms=8, MaxDepth=2, MaxMap=2, MaxDel=1, Dims="DimsQuick"),
         "C12": dict(InitFrags=ALLF, ExtFrags='{"F1p", "F3a", "F3e", "F2y"}', InitCells='{"ortho", "tri", "trineg"}',
                     MaxAtoms=16, MaxDepth=2, MaxMap=1, MaxDel=1, Dims="DimsThorough"),
@@ -227,6 +227,9 @@ def execute(beh, R, variant=0, rnd=None, cache=None, probe=True, want_obj=False)
         if other is not None and src is not None:
             after = project(other, R)
             if after != src:
+                rec["src_same"] = "no"
+            elif op in ("Replicate", "Copy") and other is atoms:
+                # the "result" is the source object itself: every later edit of the result edits the source
                 rec["src_same"] = "no"
             elif probe and n == nsteps - 1 and op in ("Replicate", "Subset", "Copy") and other is not atoms:
                 # independence probe: the result is a separate object; mutating it must not reach the source
